@@ -357,6 +357,13 @@ def bytewise_const_rule(ck, mod, label, width=True):
                 g = mod.fns[obj[1]]
                 prm = g.params[obj[2]]
                 isbyte = prm["di"]["pointee"] in BYTE_TYPES
+                if (I.get("align") or 1) > 8:
+                    # no type of this library's interface is aligned beyond 8 bytes (its widest scalars are 64-bit): an access that claims more
+                    # (an aligned vector load of the state words, say) is misaligned for objects the caller may legitimately pass
+                    ck.bad("R-C06-ALIGN", f.name, "overaligned#%s[%s]" % (_an(f, I), label),
+                           "%s of %d byte(s) through parameter '%s' of %s claims %d-byte alignment; the object's type guarantees at most 8: undefined (and faulting with aligned vector moves) "
+                           "for a caller's object at an address that is not a multiple of %d" % (I.op, I.get("size"), prm["name"], g.name, I.get("align"), I.get("align")), where=relpath(I.where))
+                    continue
                 if isbyte:
                     nacc += 1
                     al = I.get("align") or 1
@@ -408,6 +415,7 @@ def bytewise_const_rule(ck, mod, label, width=True):
                         g = mod.fns[obj[1]]
                         ck.bad("R-C06-CONST", f.name, "mem-to-const#%s[%s]" % (_an(f, I), label),
                                "memcpy/memset into the pointer-to-const parameter '%s' of %s" % (g.params[obj[2]]["name"], g.name), where=relpath(I.where))
+    ck.ok("R-C06-ALIGN", "(module)", "census[%s]" % label, "no access through a pointer parameter claims more than 8-byte alignment (points-to analysis over the whole module)")
     ck.ok("R-C06-CONST", "(module)", "census[%s]" % label, "no store or mem intrinsic writes through a pointer-to-const parameter (points-to analysis over the whole module)")
     return nacc
 
@@ -505,6 +513,8 @@ def run(ck, build):
             "of length arithmetic is exact: clen - 8 after the clen >= 8 guard, remaining - 4 under remaining >= 4, 16 - posn under the field invariant ...); refuted only by a witness - parameter values "
             "that pass every earlier check and make the length wrap to ~2^64")
     ck.rule("R-C06-INV", "the inter-call invariants the bounds proof assumes (hash block position <= 15, HKDF block position <= 32) are re-established by every store to those fields")
+    ck.rule("R-C06-ALIGN", "no load or store whose address derives from a pointer parameter claims an alignment above 8 bytes (the widest alignment any type in the library's interface has): "
+            "objects supplied by the caller are only as aligned as their types say (source-shaped and -O3 IR)")
     ck.rule("R-C06-BYTEWISE", "every load/store whose points-to set contains a caller byte buffer claims alignment 1 (N0 and -O3 IR) and is one byte wide (N0): no misaligned access, no host-endianness dependence")
     ck.rule("R-C06-CONST", "no store or mem intrinsic writes through a pointer-to-const parameter (whole-module points-to)")
     ck.rule("R-C06-SHIFT", "every shift has an amount below the operand width: constants checked exactly, variable amounts through their known-bits range (undecided ones are listed, not reported)")
